@@ -143,7 +143,9 @@ stmt
 		$<dex>$->right = $<dex>3;
 	}
 	| TOK_NOT stmt {
-		($<dex>$ = $<dex>2)->nega = 1;
+		/* toggle, !!a is a */
+		$<dex>$ = $<dex>2;
+		$<dex>$->nega = !$<dex>$->nega;
 	}
 	| TOK_LPAREN stmt TOK_RPAREN {
 		$<dex>$ = $<dex>2;
